@@ -113,10 +113,16 @@ class _ESM:
     takes `delay` status reads to complete; a refused one raises the error
     flag instead."""
 
-    def __init__(self, state, err, delay, refuse=()):
+    def __init__(self, state, err, delay, refuse=(), zero_code=False,
+                 arrive_err=()):
         self.state, self.err, self.delay = state, err, delay
-        self.code = 0x1d if err else 0
+        # (some terminals report an error with status code 0)
+        self.zero_code = zero_code
+        self.code = 0x1d if err and not zero_code else 0
         self.refuse = set(refuse)
+        # states that are reached, but with the error flag raised in the
+        # very answer that reports them (a local error on arrival)
+        self.arrive_err = set(arrive_err)
         self.pending = None
         self.writes = []
         self.reads = 0
@@ -135,9 +141,12 @@ class _ESM:
                     self.pending = None
                     if req in self.refuse:
                         self.err, self.code = True, 0x1e
+                    elif req in self.arrive_err:
+                        self.state, self.err, self.code = req, True, 0x1b
                     else:
                         self.state = req
-            return (self.state | (0x10 if self.err else 0), self.code)
+            return (self.state | (0x10 if self.err else 0),
+                    0 if self.zero_code else self.code)
         if name == "FPWR" and offset == 0x120 and len(args) == 2 and \
                 args[0] == "H":
             v = args[1]
@@ -147,6 +156,8 @@ class _ESM:
                 req0, self.pending = self.pending[0], None
                 if req0 in self.refuse:
                     self.err, self.code = True, 0x1e
+                elif req0 in self.arrive_err:
+                    self.state, self.err, self.code = req0, True, 0x1b
                 else:
                     self.state = req0
             if v & 0x10:
@@ -178,19 +189,28 @@ def walk_exec(chk, repo):
     by_code = {m.value: m for m in mem.values()}
     bad = []
     rows = 0
-    grid = [(s0, err0, tgt, delay, refuse) for s0 in (1, 2, 4, 8)
+    grid = [(s0, err0, tgt, delay, refuse, False, ()) for s0 in (1, 2, 4, 8)
             for err0 in (False, True) for tgt in (2, 4, 8)
             for delay in (0, 2) for refuse in ((), (4,), (8,))]
     # a terminal that takes very long for every step (no bound on the
     # number of polls is part of the walk)
-    grid += [(1, False, 8, 1500, ()), (2, True, 4, 1500, ())]
+    grid += [(1, False, 8, 1500, (), False, ()),
+             (2, True, 4, 1500, (), False, ())]
+    # terminals whose status code reads 0 although the error flag is set,
+    # and terminals that reach a state with the error flag raised
+    grid += [(s0, True, tgt, delay, refuse, True, ())
+             for s0 in (2, 4) for tgt in (4, 8) for delay in (0, 2)
+             for refuse in ((), (8,))]
+    grid += [(s0, False, 8, delay, (), zc, (arr,))
+             for s0 in (1, 2) for delay in (0, 1) for zc in (False, True)
+             for arr in (2, 4, 8) if arr > s0]
     if True:
         if True:
             if True:
                 if True:
-                    for s0, err0, tgt, delay, refuse in grid:
+                    for s0, err0, tgt, delay, refuse, zc, arr in grid:
                         rows += 1
-                        dev = _ESM(s0, err0, delay, refuse)
+                        dev = _ESM(s0, err0, delay, refuse, zc, arr)
                         me = Obj(tci, {"position": 7, "ec": Obj(None, {
                             "roundtrip": ("hook", dev.roundtrip)})})
                         tag = (f"terminal in {by_code[s0].name}"
@@ -198,7 +218,10 @@ def walk_exec(chk, repo):
                                f"{by_code[tgt].name}, requests complete "
                                f"after {delay} reads"
                                + (f", refuses {by_code[refuse[0]].name}"
-                                  if refuse else ""))
+                                  if refuse else "")
+                               + (", status code reads 0" if zc else "")
+                               + (f", reports {by_code[arr[0]].name} with "
+                                  f"the error flag" if arr else ""))
                         start = 1 if err0 else s0
                         want = [0x11] if err0 else []
                         cur, failed = start, False
@@ -208,7 +231,7 @@ def walk_exec(chk, repo):
                             if cur >= tgt:
                                 break
                             want.append(nxt)
-                            if nxt in refuse:
+                            if nxt in refuse or nxt in arr:
                                 failed = True
                                 break
                             cur = nxt
